@@ -7282,11 +7282,15 @@ fn eval_struct_value(
 
     let mut fields = vec![];
 
+    // The field values popped so far.
+    let mut popped_values = vec![];
+
     let type_bindings = env.current_frame().type_bindings.clone();
     for (field_sym, field_expr) in field_exprs {
         let field_value = env
             .pop_value()
             .expect("Value stack should have sufficient items for the struct literal");
+        popped_values.push(field_value.clone());
 
         let Some(field_info) = expected_fields_by_name.remove(&field_sym.name) else {
             // TODO: this would be a good candidate for additional
@@ -7298,7 +7302,7 @@ fn eval_struct_value(
             ))]);
 
             return Err((
-                RestoreValues(vec![]), // TODO
+                RestoreValues(popped_values.into_iter().rev().collect()),
                 EvalError::Exception(ExceptionInfo {
                     position: field_sym.position.clone(),
                     message,
@@ -7317,7 +7321,7 @@ fn eval_struct_value(
             Type::from_hint(&field_info.hint, &env.types, &type_bindings).unwrap_or_err_ty();
         if let Err(msg) = check_type(&field_value, &expected_ty, env) {
             return Err((
-                RestoreValues(vec![]), // TODO
+                RestoreValues(popped_values.into_iter().rev().collect()),
                 EvalError::Exception(ExceptionInfo {
                     position: field_expr.position.clone(),
                     message: ErrorMessage(vec![Text(format!(
@@ -7344,7 +7348,7 @@ fn eval_struct_value(
         ))]);
 
         return Err((
-            RestoreValues(vec![]), // TODO
+            RestoreValues(popped_values.into_iter().rev().collect()),
             EvalError::Exception(ExceptionInfo {
                 position: outer_expr_pos.clone(),
                 message,
